@@ -1098,14 +1098,13 @@ namespace Dune {
       }
     }else{
 
-      int oldPos=position;
-      // Two index sets received
-      unpackIndices(*receive, noRemoteSource, destPairs, destPublish,
+      // Two index sets received. If we have only one index set it is our
+      // destination, too (destPairs==sourcePairs, but destPublish is 0).
+      unpackIndices(*receive, noRemoteSource, destPairs,
+                    sendTwo ? destPublish : sourcePublish,
                     p_in, type, &position, bufferSize, fromOurSelf);
-      if(!sendTwo)
-        //unpack source entries again as destination entries
-        position=oldPos;
 
+      // the remote destination indices follow the remote source indices
       send = new RemoteIndexList();
       unpackIndices(*send, noRemoteDest, sourcePairs, sourcePublish,
                     p_in, type, &position, bufferSize, fromOurSelf);
@@ -1419,7 +1418,7 @@ namespace Dune {
 
       if(destIndex < localDestEntries && localDest[destIndex]->global() == index.global())
         receive.push_back(RemoteIndex(index.local().attribute(),
-                                      localDest[sourceIndex]));
+                                      localDest[destIndex]));
     }
 
   }
